@@ -72,76 +72,76 @@ Example C05_print_ops_can_panic :
 Proof. repeat split. Qed.
 
 (* ---- packet / adaptation field: every call of the group is modelled ---- *)
-Theorem C05Tot_pkt_read : never_bad (group g_pkt_read).
-Proof. exact (group_total _ pkt_read_ok). Qed.
+Theorem C05Tot_pkt_read : never_bad (group g_pkt_read e_pkt_read).
+Proof. exact (group_total _ _ pkt_read_ok). Qed.
 Print Assumptions C05Tot_pkt_read.
-Theorem C05Tot_pkt_setpayload : never_bad (group g_pkt_setpayload).
-Proof. exact (group_total _ pkt_setpayload_ok). Qed.
+Theorem C05Tot_pkt_setpayload : never_bad (group g_pkt_setpayload e_pkt_setpayload).
+Proof. exact (group_total _ _ pkt_setpayload_ok). Qed.
 Print Assumptions C05Tot_pkt_setpayload.
-Theorem C05Tot_pkt_setpayloadfn : never_bad (group g_pkt_setpayloadfn).
-Proof. exact (group_total _ pkt_setpayloadfn_ok). Qed.
+Theorem C05Tot_pkt_setpayloadfn : never_bad (group g_pkt_setpayloadfn e_none).
+Proof. exact (group_total _ _ pkt_setpayloadfn_ok). Qed.
 Print Assumptions C05Tot_pkt_setpayloadfn.
-Theorem C05Tot_pkt_setafc : never_bad (group g_pkt_setafc).
-Proof. exact (group_total _ pkt_setafc_ok). Qed.
+Theorem C05Tot_pkt_setafc : never_bad (group g_pkt_setafc e_pkt_setafc).
+Proof. exact (group_total _ _ pkt_setafc_ok). Qed.
 Print Assumptions C05Tot_pkt_setafc.
-Theorem C05Tot_af_getters : never_bad (group g_af_getters).
-Proof. exact (group_total _ af_getters_ok). Qed.
+Theorem C05Tot_af_getters : never_bad (group g_af_getters e_af_getters).
+Proof. exact (group_total _ _ af_getters_ok). Qed.
 Print Assumptions C05Tot_af_getters.
-Theorem C05Tot_af_setters : never_bad (group g_af_setters).
-Proof. exact (group_total _ af_setters_ok). Qed.
+Theorem C05Tot_af_setters : never_bad (group g_af_setters e_af_setters).
+Proof. exact (group_total _ _ af_setters_ok). Qed.
 Print Assumptions C05Tot_af_setters.
-Theorem C05Tot_affn : never_bad (group g_affn).
-Proof. exact (group_total _ affn_ok). Qed.
+Theorem C05Tot_affn : never_bad (group g_affn e_none).
+Proof. exact (group_total _ _ affn_ok). Qed.
 Print Assumptions C05Tot_affn.
 
 (* ---- psi ---- *)
-Theorem C05Tot_psi_accessors : never_bad (group g_psi_accessors).
-Proof. exact (group_total _ psi_accessors_ok). Qed.
+Theorem C05Tot_psi_accessors : never_bad (group g_psi_accessors e_psi_accessors).
+Proof. exact (group_total _ _ psi_accessors_ok). Qed.
 Print Assumptions C05Tot_psi_accessors.
-Theorem C05Tot_psi_pat : never_bad (group g_psi_pat).
-Proof. exact (group_total _ psi_pat_ok). Qed.
+Theorem C05Tot_psi_pat : never_bad (group g_psi_pat e_psi_pat).
+Proof. exact (group_total _ _ psi_pat_ok). Qed.
 Print Assumptions C05Tot_psi_pat.
-Theorem C05Tot_psi_pmt : never_bad (group g_psi_pmt).
-Proof. exact (group_total _ psi_pmt_ok). Qed.
+Theorem C05Tot_psi_pmt : never_bad (group g_psi_pmt e_psi_pmt).
+Proof. exact (group_total _ _ psi_pmt_ok). Qed.
 Print Assumptions C05Tot_psi_pmt.
-Theorem C05Tot_psi_done : never_bad (group g_psi_done).
-Proof. exact (group_total _ psi_done_ok). Qed.
+Theorem C05Tot_psi_done : never_bad (group g_psi_done e_psi_done).
+Proof. exact (group_total _ _ psi_done_ok). Qed.
 Print Assumptions C05Tot_psi_done.
-Theorem C05Tot_psi_crc : never_bad (group g_psi_crc).
-Proof. exact (group_total _ psi_crc_ok). Qed.
+Theorem C05Tot_psi_crc : never_bad (group g_psi_crc e_psi_crc).
+Proof. exact (group_total _ _ psi_crc_ok). Qed.
 Print Assumptions C05Tot_psi_crc.
-Theorem C05Tot_psi_filter : never_bad (group g_psi_filter).
-Proof. exact (group_total _ psi_filter_ok). Qed.
+Theorem C05Tot_psi_filter : never_bad (group g_psi_filter e_psi_filter).
+Proof. exact (group_total _ _ psi_filter_ok). Qed.
 Print Assumptions C05Tot_psi_filter.
-Theorem C05Tot_psi_readpat : never_bad (group g_psi_readpat).
-Proof. exact (group_total _ psi_readpat_ok). Qed.
+Theorem C05Tot_psi_readpat : never_bad (group g_psi_readpat e_psi_readpat).
+Proof. exact (group_total _ _ psi_readpat_ok). Qed.
 Print Assumptions C05Tot_psi_readpat.
-Theorem C05Tot_psi_readpmt : never_bad (group g_psi_readpmt).
-Proof. exact (group_total _ psi_readpmt_ok). Qed.
+Theorem C05Tot_psi_readpmt : never_bad (group g_psi_readpmt e_psi_readpmt).
+Proof. exact (group_total _ _ psi_readpmt_ok). Qed.
 Print Assumptions C05Tot_psi_readpmt.
 
 (* ---- pes / ebp / scte35 ---- *)
-Theorem C05Tot_pes_new : never_bad (group g_pes_new).
-Proof. exact (group_total _ pes_new_ok). Qed.
+Theorem C05Tot_pes_new : never_bad (group g_pes_new e_pes_new).
+Proof. exact (group_total _ _ pes_new_ok). Qed.
 Print Assumptions C05Tot_pes_new.
 (* EBPSuccessReadTime returns the stored clock reading: a field read; the value is not modelled *)
-Theorem C05Tot_ebp_read : never_bad (group g_ebp_read).
-Proof. exact (group_total _ ebp_read_ok). Qed.
+Theorem C05Tot_ebp_read : never_bad (group g_ebp_read e_ebp_read).
+Proof. exact (group_total _ _ ebp_read_ok). Qed.
 Print Assumptions C05Tot_ebp_read.
 (* the re-encoded bytes are normalised with w8 before they are decoded again (see g_scte_new) *)
-Theorem C05Tot_scte_new : never_bad (group g_scte_new).
-Proof. exact (group_total _ scte_new_ok). Qed.
+Theorem C05Tot_scte_new : never_bad (group g_scte_new e_scte_new).
+Proof. exact (group_total _ _ scte_new_ok). Qed.
 Print Assumptions C05Tot_scte_new.
 
 (* ---- streams: over the model of bufio.Reader / the scripted reader and writer oracles ---- *)
-Theorem C05Tot_pkt_sync : never_bad (group g_pkt_sync).
-Proof. exact (group_total _ pkt_sync_ok). Qed.
+Theorem C05Tot_pkt_sync : never_bad (group g_pkt_sync e_pkt_sync).
+Proof. exact (group_total _ _ pkt_sync_ok). Qed.
 Print Assumptions C05Tot_pkt_sync.
-Theorem C05Tot_pkt_acc : never_bad (group g_pkt_acc).
-Proof. exact (group_total _ pkt_acc_ok). Qed.
+Theorem C05Tot_pkt_acc : never_bad (group g_pkt_acc e_none).
+Proof. exact (group_total _ _ pkt_acc_ok). Qed.
 Print Assumptions C05Tot_pkt_acc.
-Theorem C05Tot_pkt_writer : never_bad (group g_pkt_writer).
-Proof. exact (group_total _ pkt_writer_ok). Qed.
+Theorem C05Tot_pkt_writer : never_bad (group g_pkt_writer e_none).
+Proof. exact (group_total _ _ pkt_writer_ok). Qed.
 Print Assumptions C05Tot_pkt_writer.
 
 (* ---- the op table as the executor sees it ---- *)
@@ -156,10 +156,35 @@ Theorem C05Tot_ops_names : map fst TotExec.ops =
 Proof. exact ops_names. Qed.
 Print Assumptions C05Tot_ops_names.
 
+(* ---- the accept / reject bit (audit 1, item 5: without it the model side is the constant [0 1]) ----
+   On every byte string every group answers [0 1 e], where e is computed by the e_* function of the group from the Ok / Err
+   of the model of its primary decoder call; goexec reports the same bit of the real call, and bin/check compares them, so
+   the C05 run itself ties WHICH inputs each decoder accepts to the models the totality theorems are about. *)
+Theorem C05Tot_all_groups_answer : Forall (fun g => answers (snd (fst g)) (snd g)) TotExec.groups.
+Proof. exact all_groups_answer. Qed.
+Print Assumptions C05Tot_all_groups_answer.
+Theorem C05Tot_reject_bits : forall b n,
+  (e_psi_pat b n = true <-> exists e, Model.Pat.Pat.new_pat b = Err e) /\
+  (e_psi_pmt b n = true <-> exists e, Pmt.new_pmt b = Err e) /\
+  (e_psi_done b n = true <-> exists e, Pmt.done_func b = Err e) /\
+  (e_psi_crc b n = true <-> exists e, Pmt.extract_crc b = Err e) /\
+  (e_psi_readpmt b n = true <-> exists e, Pmt.read_pmt b (readpmt_pid b n) = Err e) /\
+  (e_pes_new b n = true <-> exists e, Pes.new_pes_header b = Err e) /\
+  (e_ebp_read b n = true <-> exists e, Ebp.ReadEncoderBoundaryPoint true b = Err e) /\
+  (e_scte_new b n = true <-> exists e, Scte.new_scte35 b = Err e) /\
+  (e_psi_accessors b n = true <-> exists e, Model.Psi.Psi.table_header_from_bytes b = Err e) /\
+  (e_pkt_read b n = true <-> exists e, Model.Packet.Packet.Payload_fn (pkt_of b) = Err e).
+Proof. exact reject_bits. Qed.
+Print Assumptions C05Tot_reject_bits.
+
 (* non-vacuity: the three classes are three different replies; a panicking group function IS answered [2 x];
-   a concrete case is answered [0 1] *)
+   concrete cases are answered [0 1 1] (rejected) and [0 1 0] (accepted) *)
 Theorem C05Tot_replies_distinct :
   reply COk <> reply CPanic /\ reply COk <> reply CDiverge /\ reply CPanic <> reply CDiverge /\
-  group (fun _ _ => CPanic) [VB [71]] = reply CPanic /\ group g_pkt_read [VB [71]; VI 15%Z] = reply COk.
+  group (fun _ _ => CPanic) e_none [VB [71]] = reply CPanic /\
+  group g_pkt_read e_pkt_read [VB [71]; VI 15%Z] = VL [VI 0%Z; VI 1%Z; VI 1%Z] /\
+  group g_pkt_read e_pkt_read [VB [71; 0; 0; 16]; VI 15%Z] = VL [VI 0%Z; VI 1%Z; VI 0%Z] /\
+  group g_pes_new e_pes_new [VB []] = VL [VI 0%Z; VI 1%Z; VI 1%Z] /\
+  group g_pes_new e_pes_new [VB [0; 0; 1; 224; 0; 0; 128; 0; 0]] = VL [VI 0%Z; VI 1%Z; VI 0%Z].
 Proof. exact replies_distinct. Qed.
 Print Assumptions C05Tot_replies_distinct.
